@@ -541,6 +541,20 @@ decls! {
     gen = |r| gen_int(r, -5, 1005, i16::MIN as i128, i16::MAX as i128) as i16;
     corpus = vec![-1, 0, 999, 1000, i16::MAX, i16::MIN];
 
+    // fixed-size arrays as inner type (serde writes arrays as TUPLES, slices as sequences; RON tells
+    // them apart)
+    #[nutype(validate(predicate = |c| c.iter().any(|x| *x != 0)), derive(Debug, Clone, Serialize, Deserialize))]
+    struct Rgb([u8; 3]);
+    family = "other"; validated = true; core = false;
+    gen = |r| if r.chance(1, 5) { [0, 0, 0] } else { [r.below(256) as u8, r.below(256) as u8, r.below(256) as u8] };
+    corpus = vec![[0, 0, 0], [255, 128, 1], [0, 0, 1]];
+
+    #[nutype(sanitize(with = |mut g: [[i8; 2]; 2]| { g[0].sort(); g[1].sort(); g }), derive(Debug, Clone, Serialize, Deserialize))]
+    struct Grid([[i8; 2]; 2]);
+    family = "other"; validated = false; core = false;
+    gen = |r| [[r.below(256) as u8 as i8, r.below(256) as u8 as i8], [r.below(3) as i8, -1]];
+    corpus = vec![[[0, 0], [0, 0]], [[5, -5], [127, -128]]];
+
     // unit, optional text, nested option, sequence of pairs: inner values whose encodings are
     // "nothing", null, or a container (formats treat these specially)
     #[nutype(derive(Debug, Clone, Serialize, Deserialize))]
